@@ -1032,6 +1032,349 @@ fn check_rtcp(c: &RtcpHist, rec: &CaseRec, env: &RtcpEnv) -> Check {
 }
 
 // ---------------------------------------------------------------------------------------------
+// many SSRCs in one session (more per-SSRC contexts than the session's high-water mark)
+// ---------------------------------------------------------------------------------------------
+
+/// A later packet of the history: on one of the wrapped streams (`climber`) or on any stream.
+#[derive(Clone, Debug, Serialize, Deserialize)]
+pub struct ManyStep {
+    pub sel: u16,
+    pub climber: bool,
+    pub delta: i32,
+    pub rtcp: bool,
+}
+
+#[derive(Clone, Debug, Serialize, Deserialize)]
+pub struct ManyCase {
+    pub keys: Keys,
+    /// number of SSRCs carried by the one session pair (mostly 33..100)
+    pub n: u8,
+    pub ssrc_base: u32,
+    pub seq_seed: u32,
+    /// streams that cross 2^16: (which, wraps 1..3, index stride of the climb)
+    pub climbers: Vec<(u16, u8, u16)>,
+    /// how many SSRCs have appeared before the climb starts
+    pub lead: u16,
+    /// after the k-th climb packet, does a fresh SSRC appear
+    pub fresh_during_climb: Vec<bool>,
+    pub shape: Shape,
+    pub after: Vec<ManyStep>,
+    /// additionally receive everything through one RtpTransport
+    pub transport: bool,
+}
+
+fn many_strategy(max_after: usize) -> impl Strategy<Value = ManyCase> {
+    (
+        keys_strategy(),
+        prop_oneof![6 => 33..=100u8, 1 => Just(33u8), 1 => 20..=32u8],
+        any::<u32>(),
+        any::<u32>(),
+        prop::collection::vec((any::<u16>(), 1..=3u8, prop_oneof![Just(30000u16), Just(32767u16), 9000..=32767u16]), 1..=6),
+        any::<u16>(),
+        prop::collection::vec(any::<bool>(), 48),
+        shape_strategy(80, 4),
+        prop::collection::vec(
+            (
+                any::<u16>(),
+                prop::bool::weighted(0.6),
+                prop_oneof![6 => Just(1i32), 3 => 2..=100i32, 1 => 1000..=20000i32, 2 => -20..=-1i32],
+                prop::bool::weighted(0.2),
+            )
+                .prop_map(|(sel, climber, delta, rtcp)| ManyStep { sel, climber, delta, rtcp }),
+            10..=max_after,
+        ),
+        prop::bool::weighted(0.4),
+    )
+        .prop_map(|(keys, n, ssrc_base, seq_seed, climbers, lead, fresh_during_climb, mut shape, after, transport)| {
+            shape.pt = 96 + shape.pt % 32;
+            ManyCase { keys, n, ssrc_base, seq_seed, climbers, lead, fresh_during_climb, shape, after, transport }
+        })
+}
+
+/// One RtpTransport with the receiving SRTP session installed, observed at its listeners.
+struct ManyTransport {
+    tr: rustrtc::transports::rtp::RtpTransport,
+    rtp_rx: tokio::sync::mpsc::Receiver<(RtpPacket, std::net::SocketAddr)>,
+    rtcp_rx: tokio::sync::mpsc::Receiver<Vec<rustrtc::rtp::RtcpPacket>>,
+    from: std::net::SocketAddr,
+    buf: Vec<u8>,
+}
+
+impl ManyTransport {
+    fn new(keys: &Keys) -> Self {
+        let (_tx, rx) = tokio::sync::watch::channel(None);
+        let from: std::net::SocketAddr = "127.0.0.1:40406".parse().unwrap();
+        let conn = rustrtc::transports::ice::conn::IceConn::new(rx, from, None);
+        let tr = rustrtc::transports::rtp::RtpTransport::new(conn, true);
+        tr.start_srtp(keys.receiver());
+        let (rtp_tx, rtp_rx) = tokio::sync::mpsc::channel(16);
+        let (rtcp_tx, rtcp_rx) = tokio::sync::mpsc::channel(16);
+        tr.register_provisional_listener(rtp_tx);
+        tr.register_rtcp_listener(rtcp_tx);
+        ManyTransport { tr, rtp_rx, rtcp_rx, from, buf: Vec::new() }
+    }
+    /// (RTP packets, RTCP batches re-marshalled) delivered for one datagram
+    fn take(&mut self, wire: &[u8]) -> (Vec<RtpPacket>, Vec<Vec<u8>>) {
+        use rustrtc::transports::PacketReceiver;
+        futures::executor::block_on(self.tr.receive(bytes::Bytes::copy_from_slice(wire), self.from, &mut self.buf));
+        let rtp = std::iter::from_fn(|| self.rtp_rx.try_recv().ok()).map(|x| x.0).collect();
+        let rtcp = std::iter::from_fn(|| self.rtcp_rx.try_recv().ok())
+            .map(|b| rustrtc::rtp::marshal_rtcp_packets(&b).unwrap_or_default())
+            .collect();
+        (rtp, rtcp)
+    }
+}
+
+#[derive(Default)]
+struct ManyTotals {
+    over_mark_wrapped_continues: AtomicU64,
+    over_mark: AtomicU64,
+    packets: AtomicU64,
+    transport_cases: AtomicU64,
+}
+
+fn check_many(c: &ManyCase, rec: &CaseRec, tot: &ManyTotals) -> Check {
+    let keys = &c.keys;
+    let n = (c.n as usize).max(2);
+    let seeds = expand(c.seq_seed, n * 3);
+    let streams: Vec<StreamSpec> = (0..n)
+        .map(|i| {
+            let x = u16::from_le_bytes([seeds[3 * i], seeds[3 * i + 1]]);
+            let start_seq = match seeds[3 * i + 2] % 6 {
+                0 => 65535 - (x % 64),
+                1 => x % 4,
+                2 => 32767 + (x % 3),
+                _ => x,
+            };
+            StreamSpec { ssrc: c.ssrc_base.wrapping_add((i as u32).wrapping_mul(0x9E37_79B1)), start_seq }
+        })
+        .collect();
+    // climbers (distinct streams)
+    let mut climbers: Vec<(usize, u8, u16)> = Vec::new();
+    for (w, wraps, stride) in &c.climbers {
+        let s = crate::engine::pick(*w, n);
+        if !climbers.iter().any(|x| x.0 == s) {
+            climbers.push((s, (*wraps).clamp(1, 3), (*stride).clamp(9000, 32767)));
+        }
+    }
+    // event list: (stream, delta, rtcp)
+    let mut ev: Vec<(usize, i32, bool)> = Vec::new();
+    let mut seen = vec![false; n];
+    let mut unseen: std::collections::VecDeque<usize> = (0..n).collect();
+    let first = |ev: &mut Vec<(usize, i32, bool)>, seen: &mut Vec<bool>, s: usize| {
+        if !seen[s] {
+            seen[s] = true;
+            // some streams are first heard of through RTCP (the context is created by SRTCP)
+            let rtcp_first = seeds[3 * s + 2] & 0x30 == 0 && !climbers.iter().any(|x| x.0 == s);
+            ev.push((s, 0, rtcp_first));
+            if rtcp_first {
+                ev.push((s, 0, false));
+            }
+        }
+    };
+    let lead = crate::engine::pick(c.lead, n + 1);
+    for _ in 0..lead {
+        if let Some(s) = unseen.pop_front() {
+            first(&mut ev, &mut seen, s);
+        }
+    }
+    let mut idx: Vec<u64> = streams.iter().map(|s| s.start_seq as u64).collect();
+    let mut k = 0usize;
+    loop {
+        let mut progressed = false;
+        for (s, wraps, stride) in &climbers {
+            if seen[*s] && idx[*s] >= (*wraps as u64) << 16 {
+                continue;
+            }
+            if seen[*s] {
+                idx[*s] += *stride as u64;
+                ev.push((*s, *stride as i32, false));
+            } else {
+                first(&mut ev, &mut seen, *s);
+            }
+            progressed = true;
+            if c.fresh_during_climb[k % c.fresh_during_climb.len()] {
+                while let Some(f) = unseen.pop_front() {
+                    if !seen[f] {
+                        first(&mut ev, &mut seen, f);
+                        break;
+                    }
+                }
+            }
+            k += 1;
+        }
+        if !progressed {
+            break;
+        }
+    }
+    while let Some(f) = unseen.pop_front() {
+        first(&mut ev, &mut seen, f);
+    }
+    for a in &c.after {
+        let s = if a.climber { climbers[crate::engine::pick(a.sel, climbers.len())].0 } else { crate::engine::pick(a.sel, n) };
+        ev.push((s, a.delta, a.rtcp));
+    }
+
+    // expected indices of the RTP packets
+    let steps: Vec<Step> = ev
+        .iter()
+        .enumerate()
+        .filter(|(_, e)| !e.2)
+        .map(|(i, e)| {
+            let mut sh = c.shape.clone();
+            sh.seed = sh.seed.wrapping_add(i as u32);
+            sh.ts = sh.ts.wrapping_add(i as u32 * 160);
+            Step { stream: e.0 as u8, delta: e.1, shape: sh, delay: 0, drop: false, dup: None }
+        })
+        .collect();
+    let mut planned = plan(&streams, false, &steps).into_iter();
+
+    let m = keys.model();
+    let mut a = keys.sender();
+    let mut b = RxPair::new(keys, "many-rx-rustrtc-wire");
+    let mut cm = RxPair::new(keys, "many-rx-model-wire");
+    let mut w_rx = keys.webrtc();
+    let mut w_tx = keys.webrtc();
+    let mut wt = WTrack::default();
+    let mut tr = if c.transport { Some(ManyTransport::new(keys)) } else { None };
+    let mut rtcp_n: HashMap<u32, u32> = HashMap::new();
+    let mut ctxs: std::collections::HashSet<u32> = Default::default();
+    let mut wrapped_after_mark = false;
+    let mut max_roc = 0u32;
+
+    for (k, (s, _delta, rtcp)) in ev.iter().enumerate() {
+        let ssrc = streams[*s].ssrc;
+        ctxs.insert(ssrc);
+        if *rtcp {
+            let pli = rustrtc::rtp::RtcpPacket::PictureLossIndication(rustrtc::rtp::PictureLossIndication { sender_ssrc: ssrc, media_ssrc: k as u32 });
+            let plain = rustrtc::rtp::marshal_rtcp_packets(&[pli]).map_err(|e| Fail::new("marshal-failed", format!("{e}")))?;
+            let idx_n = {
+                let e = rtcp_n.entry(ssrc).or_insert(0);
+                *e += 1;
+                *e
+            };
+            let mut wire = plain.clone();
+            a.protect_rtcp(&mut wire).map_err(|e| Fail::new("protect-rtcp-failed", format!("event {k}: {e}")))?;
+            match m.unprotect_rtcp(&wire) {
+                Ok(r) => {
+                    ensure!(r.packet == plain, "many-model-decodes-different-rtcp", "event {k}: model decrypts rustrtc SRTCP of ssrc {ssrc:#x} differently");
+                    ensure!(
+                        r.index == idx_n && r.encrypted,
+                        "many-srtcp-index-sequence",
+                        "event {k}: {idx_n}th SRTCP packet of ssrc {ssrc:#x} carries index {} E={} with {} SSRCs in the sending session",
+                        r.index, r.encrypted, ctxs.len()
+                    );
+                }
+                Err(e) => return Err(Fail::new("many-rustrtc-srtcp-rejected-by-model", format!("event {k}: ssrc {ssrc:#x}: {e:?}"))),
+            }
+            if let Some(wrx) = w_rx.as_mut() {
+                match wrx.decrypt_rtcp(&wire) {
+                    Ok(got) => ensure!(got[..] == plain[..], "many-webrtc-decodes-different-rtcp", "event {k}"),
+                    Err(e) => return Err(Fail::new("many-rustrtc-srtcp-rejected-by-webrtc", format!("event {k}: {e}"))),
+                }
+            }
+            for (sess, name) in [(&mut b.sess, "many-rx-rustrtc-srtcp"), (&mut cm.sess, "many-rx-model-srtcp")] {
+                let mut buf = if name.contains("model") { m.protect_rtcp(&plain, idx_n, true).unwrap() } else { wire.clone() };
+                sess.unprotect_rtcp(&mut buf).map_err(|e| {
+                    Fail::new(format!("{name}-genuine-rejected"), format!("event {k}: genuine SRTCP of ssrc {ssrc:#x} rejected: {e} ({} SSRCs in the session)", ctxs.len()))
+                })?;
+                ensure!(buf == plain, format!("{name}-plaintext-differs"), "event {k}: SRTCP decoded differently");
+            }
+            if let Some(t) = tr.as_mut() {
+                let (rtp, rtcp) = t.take(&wire);
+                ensure!(
+                    rtp.is_empty() && rtcp.len() == 1 && rtcp[0] == plain,
+                    "many-transport-genuine-rtcp-lost",
+                    "event {k}: genuine SRTCP of ssrc {ssrc:#x} through the transport delivered {} RTP / {} RTCP ({} SSRCs so far)",
+                    rtp.len(), rtcp.len(), ctxs.len()
+                );
+            }
+            continue;
+        }
+        let pl = planned.next().unwrap();
+        let p = &pl.packet;
+        let roc = pl.roc();
+        max_roc = max_roc.max(roc);
+        if roc >= 1 && ctxs.len() > 32 {
+            wrapped_after_mark = true;
+        }
+        let plain = p.marshal().map_err(|e| Fail::new("marshal-failed", format!("{e}")))?;
+        let wire = protect_with(&mut a, p)?;
+        match m.unprotect_rtp(&wire, roc) {
+            Ok(got) => ensure!(got == plain, "many-model-decodes-different-packet", "event {k}: model decrypts rustrtc wire differently"),
+            Err(e) => {
+                let near = m.unprotect_rtp_any_roc(&wire, [0, roc.wrapping_sub(1), roc.wrapping_add(1), roc.wrapping_sub(2)]);
+                return Err(match near {
+                    Some((r, _)) => Fail::new(
+                        "many-sender-used-wrong-roc",
+                        format!(
+                            "event {k}: with {} SSRCs in the sending session rustrtc protected index {} (roc {roc} seq {}) of ssrc {ssrc:#x} under roc {r}",
+                            ctxs.len(), pl.idx, pl.seq()
+                        ),
+                    ),
+                    None => Fail::new("many-rustrtc-wire-rejected-by-model", format!("event {k}: {e:?} seq {} roc {roc}", pl.seq())),
+                });
+            }
+        }
+        let mw = m.protect_rtp(&plain, roc).map_err(|e| Fail::new("model-protect-failed", format!("{e:?}")))?;
+        ensure!(mw == wire, "many-wire-differs-from-model", "event {k}: rustrtc wire differs from the model's at the same index");
+        let plain2 = foreign_padding(&plain, p.padding_len);
+        let mw2 = m.protect_rtp(&plain2, roc).map_err(|e| Fail::new("model-protect-failed", format!("{e:?}")))?;
+        if let (Some(wrx), Some(wtx)) = (w_rx.as_mut(), w_tx.as_mut()) {
+            let w_ok = p.header.extension.is_none() || c.shape.ext.as_ref().is_some_and(|e| e.wellformed);
+            if w_ok && webrtc_header_ok(&plain) && wt.approach(&m, wrx, wtx, ssrc, pl.idx)? {
+                wt.fed(ssrc, pl.idx);
+                match wrx.decrypt_rtp(&wire) {
+                    Ok(got) => ensure!(got[..] == plain[..], "many-webrtc-decodes-different-packet", "event {k}"),
+                    Err(e) => return Err(Fail::new("many-rustrtc-wire-rejected-by-webrtc", format!("event {k}: {e} (seq {} roc {roc}, {} SSRCs)", pl.seq(), ctxs.len()))),
+                }
+                let ww = wtx.encrypt_rtp(&plain2).map_err(|e| Fail::new("refmodel-webrtc-encrypt-failed", format!("event {k}: {e}")))?;
+                ensure!(ww[..] == mw2[..], "refmodel-disagrees-with-webrtc", "event {k}: model and webrtc-srtp protect differently");
+            }
+        }
+        b.deliver(&wire, p, roc, false)?;
+        cm.deliver(&mw2, p, roc, false)?;
+        if let Some(t) = tr.as_mut() {
+            let (rtp, rtcp) = t.take(&wire);
+            ensure!(
+                rtcp.is_empty() && rtp.len() == 1 && rtp[0] == *p,
+                "many-transport-genuine-rtp-lost",
+                "event {k}: genuine SRTP of ssrc {ssrc:#x} (seq {} roc {roc}) through the transport delivered {} RTP / {} RTCP ({} SSRCs so far)",
+                pl.seq(), rtp.len(), rtcp.len(), ctxs.len()
+            );
+        }
+    }
+    ensure!(b.rfc_rejects + cm.rfc_rejects == 0, "many-harness-history-out-of-window", "generator produced a step outside the RFC window");
+
+    tot.packets.fetch_add(ev.len() as u64, Ordering::Relaxed);
+    if ctxs.len() > 32 {
+        tot.over_mark.fetch_add(1, Ordering::Relaxed);
+    }
+    if wrapped_after_mark {
+        tot.over_mark_wrapped_continues.fetch_add(1, Ordering::Relaxed);
+        rec.label("many:>32-ssrcs+wrapped-stream-continues");
+    }
+    if c.transport {
+        tot.transport_cases.fetch_add(1, Ordering::Relaxed);
+        rec.label("many:also-through-transport");
+    }
+    rec.set_nontrivial(wrapped_after_mark);
+    rec.label(format!("many:{}", PROFILE_NAMES[(keys.profile & 3) as usize]));
+    rec.label(match ctxs.len() {
+        0..=32 => "many:ssrcs<=32",
+        33..=48 => "many:ssrcs=33..48",
+        49..=80 => "many:ssrcs=49..80",
+        _ => "many:ssrcs>80",
+    });
+    rec.label(format!("many:wrapped-streams={}", climbers.len()));
+    rec.label(format!("many:max-roc={}", max_roc.min(4)));
+    if ev.iter().any(|e| e.2) {
+        rec.label("many:rtp+rtcp");
+    }
+    Ok(())
+}
+
+// ---------------------------------------------------------------------------------------------
 // rollover estimation vs Appendix A
 // ---------------------------------------------------------------------------------------------
 
@@ -1376,12 +1719,13 @@ fn run_roc(ctx: &mut Ctx) -> bool {
 
 pub fn run(ctx: &mut Ctx) {
     ctx.level = "exploration";
-    ctx.rule = "rtp: proptest histories of <= 60 (thorough 120) packets over 1-4 SSRCs; each packet has marker/PT/CSRC 0-15/extension {none, RFC 8285 one-byte, two-byte, other profile, ill-formed 8285 bytes} up to 64 words/padding {0,1,..,255}/payload 0..1400; sender index steps {+1, +2..100, +1000..32767, -1..-200, 0} from (ROC 0, boundary-biased start SEQ), 'fast' histories cross 2^16 several times; delivery = send order perturbed by per-packet delay 0..30, loss, duplicates. Profiles x keys {zero, ones, random}. Non-trivial = history crosses 2^16, or is reordered (at the sender or in the network), or a packet has extension/CSRC/padding; distinct by digest. rtcp: histories of <= 40 compound RTCP packets over 1-4 SSRCs (header-only .. 340 words), perturbed delivery, foreign SRTCP index {0,1,2,2^31-1,2^31-2,random} and E-bit; every history counts as non-trivial (each one exercises the index sequence and the E-bit), distinct by digest. roc: enumerated (ROC, s_l, SEQ) probes against clones of a receive context brought to (ROC, s_l): all 65536 s_l x the SEQ values within +/-2 of {s_l, s_l+2^15, 0, 2^15, 2^16-1} at ROC 0,1,2, plus generated (s_l, SEQ1, SEQ2, SEQ3, ROC) chains (the later probes exercise the state update), thorough: all 2^32 (s_l, SEQ) pairs at ROC 1 ('exhaustive' refers to this clause only); every probe counts, distinct by construction.".into();
+    ctx.rule = "rtp: proptest histories of <= 60 (thorough 120) packets over 1-4 SSRCs; each packet has marker/PT/CSRC 0-15/extension {none, RFC 8285 one-byte, two-byte, other profile, ill-formed 8285 bytes} up to 64 words/padding {0,1,..,255}/payload 0..1400; sender index steps {+1, +2..100, +1000..32767, -1..-200, 0} from (ROC 0, boundary-biased start SEQ), 'fast' histories cross 2^16 several times; delivery = send order perturbed by per-packet delay 0..30, loss, duplicates. Profiles x keys {zero, ones, random}. Non-trivial = history crosses 2^16, or is reordered (at the sender or in the network), or a packet has extension/CSRC/padding; distinct by digest. rtcp: histories of <= 40 compound RTCP packets over 1-4 SSRCs (header-only .. 340 words), perturbed delivery, foreign SRTCP index {0,1,2,2^31-1,2^31-2,random} and E-bit; every history counts as non-trivial (each one exercises the index sequence and the E-bit), distinct by digest. many: one session pair (and in 40% of cases one RtpTransport) carries 20..100 (mostly 33..100) SSRCs, i.e. more per-SSRC contexts than the session's 32-context high-water mark; 1-6 of the streams climb 1-3 wraps of 2^16 in strides of 9000..32767 while fresh SSRCs keep appearing (some first through SRTCP), then 10..50 (thorough 120) further RTP/RTCP packets mostly on the wrapped streams; all traffic is genuine and in order, every packet is judged like in rtp/rtcp (wire byte-identical to the model at the expected index, webrtc-srtp both ways, rustrtc receivers for rustrtc and model wire, SRTCP index sequence); non-trivial = a stream with ROC >= 1 sends after more than 32 SSRCs exist. roc: enumerated (ROC, s_l, SEQ) probes against clones of a receive context brought to (ROC, s_l): all 65536 s_l x the SEQ values within +/-2 of {s_l, s_l+2^15, 0, 2^15, 2^16-1} at ROC 0,1,2, plus generated (s_l, SEQ1, SEQ2, SEQ3, ROC) chains (the later probes exercise the state update), thorough: all 2^32 (s_l, SEQ) pairs at ROC 1 ('exhaustive' refers to this clause only); every probe counts, distinct by construction.".into();
     ctx.assumptions = vec![
         "master salt has exactly the profile's length (14, GCM 12) as every rustrtc caller passes it".into(),
         "acceptance of a genuine packet is required only when an RFC 3711 receiver (Appendix A estimate, ROC 0 at the first packet) would use the sender's rollover counter; verbatim duplicates may be accepted or rejected (rustrtc documents no replay list)".into(),
         "sender histories stay within (-2^15, +2^15) of the highest index already sent".into(),
         "NullCipherHmac is read as AES_CM_128_HMAC_SHA1_80 with the SRTP cipher NULL (RFC 4568 UNENCRYPTED_SRTP): SRTCP payload encryption follows the E-bit; webrtc-srtp has no NULL profile so only the own model is the reference there".into(),
+        "many: all packets of a case are processed within far less than the 60 s idle time after which rustrtc may evict a per-SSRC context, so no eviction is legitimate and every packet must round-trip".into(),
         "SRTCP with E=0 from a foreign sender is exercised for the HMAC profiles only (rustrtc never negotiates unencrypted SRTCP)".into(),
         "webrtc-srtp tracks the last (not highest) index per SSRC, so its contexts are walked with model-protected filler packets whenever the next packet is more than 30000 away from the last one it saw; it is consulted only for packets whose header its RTP parser delimits like RFC 3550 (RFC 8285 well-formed or foreign profile)".into(),
     ];
@@ -1423,9 +1767,22 @@ pub fn run(ctx: &mut Ctx) {
     // `exhaustive` refers to the rollover-estimation clause (all 2^32 (s_l, SEQ) pairs at ROC 1);
     // the packet/history sub-checks are samples in both tiers.
     let t_rtcp = t0.elapsed().as_secs_f64() - t_rtp;
+    let mt = ManyTotals::default();
+    let (n_many, max_after) = ctx.scale((700u32, 50usize), (14_000u32, 120usize));
+    ctx.sub("many", n_many, many_strategy(max_after), |c: &ManyCase, rec: &CaseRec| check_many(c, rec, &mt));
+    ctx.set_extra(
+        "many_totals",
+        json!({
+            "cases_with_more_than_32_ssrcs_and_a_wrapped_stream_continuing": mt.over_mark_wrapped_continues.load(Ordering::Relaxed),
+            "cases_with_more_than_32_ssrcs": mt.over_mark.load(Ordering::Relaxed),
+            "packets": mt.packets.load(Ordering::Relaxed),
+            "cases_also_through_transport": mt.transport_cases.load(Ordering::Relaxed),
+        }),
+    );
+    let t_many = t0.elapsed().as_secs_f64() - t_rtp - t_rtcp;
     let exhaustive = run_roc(ctx);
-    let t_roc = t0.elapsed().as_secs_f64() - t_rtp - t_rtcp;
-    ctx.set_extra("wall_s_by_sub", json!({"rtp": t_rtp, "rtcp": t_rtcp, "roc": t_roc}));
+    let t_roc = t0.elapsed().as_secs_f64() - t_rtp - t_rtcp - t_many;
+    ctx.set_extra("wall_s_by_sub", json!({"rtp": t_rtp, "rtcp": t_rtcp, "many": t_many, "roc": t_roc}));
     if !ctx.is_replay() {
         ctx.set_exhaustive(exhaustive);
     }
